@@ -137,21 +137,24 @@ def specBody (rp : Bool) (l1 : Layer) (ihl : Nat) (d : Bytes) (trunc : Bool) : D
                protocol := (getB d 9).toNat, checksum := Gp.be16 (getB d 10) (getB d 11),
                srcIP := (d.drop 12).take 4, dstIP := (d.drop 16).take 4 }, trunc || o.trunc, false⟩
 
+/-- The part of the specification after Length and IHL have been read. -/
+def decodeSpecL (rp : Bool) (old : Layer) (data : Bytes) (length ihl : Nat) : DecOut :=
+  let l1 : Layer := { old with length := length, ihl := ihl }
+  if length < 20 then ⟨l1, false, true⟩
+  else if ihl < 5 then ⟨l1, false, true⟩
+  else if ihl * 4 > length then ⟨l1, false, true⟩
+  else if data.length > length then specBody rp l1 ihl (data.take length) false
+  else if data.length < length then
+    if ihl * 4 > data.length then ⟨l1, true, true⟩ else specBody rp l1 ihl data true
+  else specBody rp l1 ihl data false
+
 /-- Specification of DecodeFromBytes: a total function of the old layer and the bytes only. -/
 def decodeSpec (rp : Bool) (old : Layer) (data : Bytes) : DecOut :=
   if data.length < 20 then ⟨old, true, true⟩
   else
     let lenField := Gp.be16 (getB data 2) (getB data 3)
-    let ihl := (getB data 0).toNat % 16
-    let length := if lenField = 0 then data.length % 65536 else lenField
-    let l1 : Layer := { old with length := length, ihl := ihl }
-    if length < 20 then ⟨l1, false, true⟩
-    else if ihl < 5 then ⟨l1, false, true⟩
-    else if ihl * 4 > length then ⟨l1, false, true⟩
-    else if data.length > length then specBody rp l1 ihl (data.take length) false
-    else if data.length < length then
-      if ihl * 4 > data.length then ⟨l1, true, true⟩ else specBody rp l1 ihl data true
-    else specBody rp l1 ihl data false
+    decodeSpecL rp old data (if lenField = 0 then data.length % 65536 else lenField)
+      ((getB data 0).toNat % 16)
 
 theorem decodeBody_eq (rp : Bool) (l1 : Layer) (ihl : Nat) (d : Sl) (xs : Bytes) (trunc : Bool)
     (hr : Rep d xs) (h5 : 5 ≤ ihl) (h16 : ihl < 16) (hx : ihl * 4 ≤ xs.length) :
@@ -185,7 +188,7 @@ theorem decodeBody_eq (rp : Bool) (l1 : Layer) (ihl : Nat) (d : Sl) (xs : Bytes)
 theorem decodeWith_eq_spec (rp : Bool) (old : Layer) (data foreign : Bytes) :
     decodeWith rp old data foreign = .ok (decodeSpec rp old data) := by
   have hr : Rep ⟨data ++ foreign, data.length⟩ data := rep_mk data foreign
-  unfold decodeWith decodeSpec
+  unfold decodeWith decodeSpec decodeSpecL
   by_cases h20 : data.length < 20
   · simp [h20]
   · simp only [h20, if_false]
@@ -217,5 +220,80 @@ theorem decodeWith_eq_spec (rp : Bool) (old : Layer) (data foreign : Bytes) :
                 exact decodeBody_eq rp _ ihl _ _ true hr (by omega) hihl (by omega)
             · simp only [c4, c5, if_false]
               exact decodeBody_eq rp _ ihl _ _ false hr (by omega) hihl (by omega)
+
+/-! ## Independence of the previous contents of the layer (fix lip4-1 applied) -/
+
+theorem specBody_old_indep (old old' : Layer) (L I : Nat) (d : Bytes) (t : Bool) :
+    let a := specBody true { old with length := L, ihl := I } I d t
+    let b := specBody true { old' with length := L, ihl := I } I d t
+    a.err = b.err ∧ a.trunc = b.trunc ∧ (a.err = false → a.layer = b.layer) := by
+  simp only [specBody]
+  split <;> simp
+
+theorem decodeSpecL_old_indep (old old' : Layer) (data : Bytes) (L I : Nat) :
+    let a := decodeSpecL true old data L I
+    let b := decodeSpecL true old' data L I
+    a.err = b.err ∧ a.trunc = b.trunc ∧ (a.err = false → a.layer = b.layer) := by
+  simp only [decodeSpecL]
+  by_cases c1 : L < 20
+  · simp [c1]
+  by_cases c2 : I < 5
+  · simp [c1, c2]
+  by_cases c3 : I * 4 > L
+  · simp [c1, c2, c3]
+  by_cases c4 : data.length > L
+  · simp only [c1, c2, c3, c4, if_true, if_false]; exact specBody_old_indep old old' _ _ _ _
+  by_cases c5 : data.length < L
+  · by_cases c6 : I * 4 > data.length
+    · simp [c1, c2, c3, c4, c5, c6]
+    · simp only [c1, c2, c3, c4, c5, c6, if_true, if_false]; exact specBody_old_indep old old' _ _ _ _
+  · simp only [c1, c2, c3, c4, c5, if_false]; exact specBody_old_indep old old' _ _ _ _
+
+theorem decodeSpec_old_indep (old old' : Layer) (data : Bytes) :
+    let a := decodeSpec true old data
+    let b := decodeSpec true old' data
+    a.err = b.err ∧ a.trunc = b.trunc ∧ (a.err = false → a.layer = b.layer) := by
+  simp only [decodeSpec]
+  by_cases h : data.length < 20
+  · simp [h]
+  · simp only [h, if_false]; exact decodeSpecL_old_indep old old' data _ _
+
+/-- Without the Padding reset only the Padding field can differ. -/
+theorem specBody_old_indep_orig (old old' : Layer) (L I : Nat) (d : Bytes) (t : Bool)
+    (hp : old.padding = old'.padding) :
+    let a := specBody false { old with length := L, ihl := I } I d t
+    let b := specBody false { old' with length := L, ihl := I } I d t
+    a.err = b.err ∧ a.trunc = b.trunc ∧ (a.err = false → a.layer = b.layer) := by
+  simp only [specBody]
+  split <;> simp [hp]
+
+theorem decodeSpecL_old_indep_orig (old old' : Layer) (data : Bytes) (L I : Nat)
+    (hp : old.padding = old'.padding) :
+    let a := decodeSpecL false old data L I
+    let b := decodeSpecL false old' data L I
+    a.err = b.err ∧ a.trunc = b.trunc ∧ (a.err = false → a.layer = b.layer) := by
+  simp only [decodeSpecL]
+  by_cases c1 : L < 20
+  · simp [c1]
+  by_cases c2 : I < 5
+  · simp [c1, c2]
+  by_cases c3 : I * 4 > L
+  · simp [c1, c2, c3]
+  by_cases c4 : data.length > L
+  · simp only [c1, c2, c3, c4, if_true, if_false]; exact specBody_old_indep_orig old old' _ _ _ _ hp
+  by_cases c5 : data.length < L
+  · by_cases c6 : I * 4 > data.length
+    · simp [c1, c2, c3, c4, c5, c6]
+    · simp only [c1, c2, c3, c4, c5, c6, if_true, if_false]; exact specBody_old_indep_orig old old' _ _ _ _ hp
+  · simp only [c1, c2, c3, c4, c5, if_false]; exact specBody_old_indep_orig old old' _ _ _ _ hp
+
+theorem decodeSpec_old_indep_orig (old old' : Layer) (data : Bytes) (hp : old.padding = old'.padding) :
+    let a := decodeSpec false old data
+    let b := decodeSpec false old' data
+    a.err = b.err ∧ a.trunc = b.trunc ∧ (a.err = false → a.layer = b.layer) := by
+  simp only [decodeSpec]
+  by_cases h : data.length < 20
+  · simp [h]
+  · simp only [h, if_false]; exact decodeSpecL_old_indep_orig old old' data _ _ hp
 
 end Gp.Ip4
